@@ -110,6 +110,8 @@ def st_tokens(fail):
             texts.append(G.Sheet([(k, "media_supports")]).text)
     for x in texts:
         y = tinycss2.serialize(tinycss2.parse_stylesheet(x, skip_whitespace=False, skip_comments=False))
+        # tinycss2 keeps an escaped surrogate code point as a lone surrogate; css-syntax (and the reference tokenizer) say U+FFFD
+        y = "".join("\ufffd" if 0xD800 <= ord(ch) <= 0xDFFF else ch for ch in y)
         if T.tree(x) != T.tree(y):
             fail("css_tokens: tree of %r differs after a tinycss2 parse/serialise round trip" % x[:60])
         n += 1
